@@ -845,9 +845,18 @@ def tab_cli_defaults(run, pc, table):
       aggs = T.region_aggregates(f, f.reachable(), "OutputFormat")
       for b in sorted(f.reachable()):
         t = f.blocks[b]["term"]
-        if t["k"] != "switch" or f.local_ty(op_local(t["discr"]) or 0) != "bool":
+        if t["k"] != "switch":
             continue
-        o = f.origin_op(t["discr"])
+        discr = t["discr"]
+        # `match (group.format, group.printout)`: the flag is read back out of the tuple it was put into
+        pl_ = (discr.get("copy") or discr.get("move")) if isinstance(discr, dict) else None
+        if pl_ and len(pl_.get("p") or []) == 1 and isinstance(pl_["p"][0], dict) and isinstance(pl_["p"][0].get("f"), int):
+            ds_ = f.full_defs(pl_["l"])
+            if len(ds_) == 1 and ds_[0][0] == "stmt" and ds_[0][3]["rv"]["k"] == "agg" and ds_[0][3]["rv"].get("agg") == "tuple" and pl_["p"][0]["f"] < len(ds_[0][3]["rv"]["ops"]):
+                discr = ds_[0][3]["rv"]["ops"][pl_["p"][0]["f"]]
+        if f.local_ty(op_local(discr) or 0) != "bool":
+            continue
+        o = f.origin_op(discr)
         if pidx is None:
             if o[0] != "place" or not o[2] or not isinstance(o[2][-1], dict) or o[2][-1].get("name") != "printout":
                 continue
